@@ -232,6 +232,8 @@ class Recorder:
     def __init__(self, sc, base):
         self._w1 = _Writer(1)
         self.other = None        # OtherWriter in progress
+        self.cur_crcs = ()       # checksums of the connection in progress
+        self.gone = set()        # directories removed by the environment and not recreated since
         self.sc = sc
         self.base = base
         self.dirs = {'A': os.path.join(base, 'A'), 'B': os.path.join(base, 'B')}
@@ -939,8 +941,9 @@ def _env_op(r, op):
     if k == 'obegin':                      # ['obegin', dir, crc, table index]: another cache object starts a store
         if r.other is not None and not r.other.finished:
             return
-        if not os.path.isdir(r.dirs[op[1]]):
-            return
+        if op[1] in r.gone or op[2] in r.cur_crcs:
+            return                          # (never a checksum of the connection in progress: model restriction)
+        os.makedirs(r.dirs[op[1]], exist_ok=True)
         _writable(r.dirs[op[1]])
         OtherWriter(r, op[1], op[2], r.sc['tables'][op[3]]).start()
         return
@@ -958,12 +961,17 @@ def _env_op(r, op):
         if not os.path.isdir(r.dirs[d]) or (r.other is not None and not r.other.finished and r.other.d == d):
             return
         shutil.rmtree(r.dirs[d])
+        r.gone.add(d)
         for key in [x for x in r.fileinfo if x[0] == d]:
             r.fileinfo.pop(key)
         _env_emit(r, {'e': 'rmdir', 'dir': d})
         return
     d, c = op[1], op[2]
     p = os.path.join(r.dirs[d], c + '.json')
+    if r.other is not None and not r.other.finished:
+        busy = (r.other.d, crc_str(r.other.crc))     # the file the other cache object is writing is left alone
+        if (d, c) == busy or (k == 'copy' and (op[3], c) == busy):
+            return
     if k == 'blockname':                   # the name of the cache file is taken by a directory
         if not os.path.isdir(r.dirs[d]):
             return
@@ -997,10 +1005,11 @@ def _env_op(r, op):
         with builtins.open(p, 'wb') as f:
             f.write(data)
         info['garbage'] = op[3]
-        info['flavour'] = 'falsy' if GARBAGE[op[3]] == 'falsy' and op[3] != 'json_null' else 'garbage'
+        info['flavour'] = 'falsy' if GARBAGE[op[3]] == 'falsy' and op[3] != 'json_null' else \
+            ('nontable' if GARBAGE[op[3]] == 'notatable' else 'garbage')
         # flavour = how the design spec models it: "falsy" = decodes to a value `if (cache_data)` rejects
         # (json null decodes to None, which is what a miss returns anyway)
-        fl = 'falsy' if GARBAGE[op[3]] == 'falsy' and op[3] != 'json_null' else 'garbage'
+        fl = info['flavour']
         _env_emit(r, {'e': 'garbage', 'dir': d, 'crc': c, 'variant': op[3], 'cls': GARBAGE[op[3]], 'flavour': fl})
     elif k == 'remove':
         if os.path.isdir(p):
@@ -1017,6 +1026,7 @@ def _env_op(r, op):
         if not exists or to == d or os.path.isdir(os.path.join(r.dirs[to], c + '.json')):
             return
         os.makedirs(r.dirs[to], exist_ok=True)
+        r.gone.discard(to)
         shutil.copyfile(p, os.path.join(r.dirs[to], c + '.json'))
         r.fileinfo[(to, c)] = dict(info) if info else None
         _env_emit(r, {'e': 'copy', 'dir': d, 'crc': c, 'to': to})
@@ -1031,6 +1041,7 @@ def run_process(r, ops, i):
     sc = r.sc
     ro, rw = ops[i][1], ops[i][2]
     r.ro, r.rw = ro, rw
+    r.gone.discard(rw)
     _writable(r.path(rw))
     _freeze_ro(r.path(ro))
     robase = listing(r.path(ro))
@@ -1056,6 +1067,10 @@ def run_process(r, ops, i):
             if op[0] == 'connect':
                 lt, lc, pt, pc = op[1], op[2], op[3], op[4]
                 opt = op[5] if len(op) > 5 else {}
+                if r.other is not None and not r.other.finished and r.other.crc in (lc, pc):
+                    _writable(r.dirs[r.other.d])       # a store of that very checksum by the other cache object
+                    r.other.finish()                   # is over before we connect (stated restriction of the model)
+                    _freeze_ro(r.path(r.ro))
                 dev = sv.standard_device(log_entries=device_entries(sc['tables'][lt]),
                                          param_entries=device_entries(sc['tables'][pt]),
                                          log_crc=lc, param_crc=pc, mems=[],
@@ -1071,6 +1086,7 @@ def run_process(r, ops, i):
                             r.req[kind].append(pk.data[1] | (pk.data[2] << 8))
                 dev.on_uplink = observe
                 r.nint = 0
+                r.cur_crcs = (lc, pc)
                 r.crash_after = opt.get('crash_after')
                 r.wk = opt.get('wk')
                 r.connected_flag = False
@@ -1098,6 +1114,7 @@ def run_process(r, ops, i):
                 u = s.spawn(cf.close_link, 'user')
                 s.run(until=lambda: u.finished, horizon=s.now + 5.0)
                 r.emit({'e': 'close'})
+                r.cur_crcs = ()
                 link_open[0] = False
                 i += 1
             elif op[0] == 'exit':
@@ -1113,6 +1130,7 @@ def run_process(r, ops, i):
                     u = s.spawn(cf.close_link, 'user')
                     s.run(until=lambda: u.finished, horizon=s.now + 5.0)
                     r.emit({'e': 'close'})
+                    r.cur_crcs = ()
                     link_open[0] = False
                 env_op(r, op)
                 i += 1
@@ -1126,6 +1144,7 @@ def run_process(r, ops, i):
             ended = 'exit'
     r.leaked += getattr(s, 'leaked', 0) or 0
     r.cf = None
+    r.cur_crcs = ()
     r.emit({'e': ended, 'roafter': listing(r.path(ro))})
     return i
 
@@ -1136,6 +1155,8 @@ def execute(sc, mutant=None):
     _install()
     base = tlc.scratch_dir('C11-')
     r = Recorder(sc, base)
+    os.makedirs(r.dirs['A'])
+    os.makedirs(r.dirs['B'])
     undo = apply_mutant(mutant)
     try:
         REC = r
@@ -1571,10 +1592,11 @@ def random_scenarios(rng, n):
 
 
 # --------------------------------------------------------------------------- spec -> code
-INTERNAL = {'Fetch': 'fetch', 'DoneUsed': 'done', 'Download': 'download', 'InsertBegin': 'ibegin',
+INTERNAL = {'Fetch': 'fetch', 'DoneUsed': 'done', 'Download': 'download', 'InsertBegin': 'ibegin', 'InsertFail': 'ifail',
             'NoInsert': 'noinsert', 'WriteByte': 'wbyte', 'InsertEnd': 'iend', 'DoneDl': 'done'}
 ENVMAP = {'Start': 'start', 'Connect': 'connect', 'Close': 'close', 'Exit': 'exit', 'Crash': 'crash',
-          'Corrupt': 'garbage', 'Remove': 'remove', 'Copy': 'copy', 'Truncate': 'cut'}
+          'Corrupt': 'garbage', 'Remove': 'remove', 'Copy': 'copy', 'Truncate': 'cut', 'RemoveDir': 'rmdir',
+          'BlockName': 'blockname', 'OtherBegin': 'ibegin', 'OtherWrite': 'wbyte', 'OtherEnd': 'oend'}
 
 
 def _files_of(st):
@@ -1582,23 +1604,34 @@ def _files_of(st):
     return f if isinstance(f, dict) else {}
 
 
-def _env_to_op(label, rng):
+def _env_to_op(label, rng, table_of=None):
     """label of an environment action of TocCache -> harness op (+ whether it cuts strictly inside a file)"""
     name, args = tlc.parse_label(label)
+    if name in ('OtherWrite', 'OtherEnd'):
+        return ['ostep'], False
+    if name == 'RemoveDir':
+        return ['rmdir', args[0]], False
     x = tuple(args[0])
+    if name == 'BlockName':
+        return ['blockname', x[0], x[1]], False
+    if name == 'OtherBegin':
+        tab = args[1]
+        kind = 'log' if (not tab or tab[0]['ext'] == '-') else 'param'
+        return ['obegin', x[0], int(x[1], 16), table_of(kind, tab)], False
     if name == 'Remove':
         return ['remove', x[0], x[1]], False
     if name == 'Copy':
         return ['copy', x[0], x[1], args[1]], False
     if name == 'Corrupt':
-        return ['garbage', x[0], x[1], rng.choice([v for v in FALSY if v != 'json_null'] if args[1] == 'falsy'
-                                                  else UNPARSABLE + NOTATABLE + ['json_null'])], False
+        pool = {'falsy': [v for v in FALSY if v != 'json_null'], 'nontable': NOTATABLE,
+                'garbage': UNPARSABLE + ['json_null']}[args[1]]
+        return ['garbage', x[0], x[1], rng.choice(pool)], False
     if args[1] == 0:
         return ['cut', x[0], x[1], 0], False
     return ['cut', x[0], x[1], rng.random()], True
 
 
-ENV_ACTIONS = ('Corrupt', 'Remove', 'Copy', 'Truncate')
+ENV_ACTIONS = ('Corrupt', 'Remove', 'Copy', 'Truncate', 'RemoveDir', 'BlockName', 'OtherBegin', 'OtherWrite', 'OtherEnd')
 
 
 def scenario_from_behaviour(beh, rng):
@@ -1638,7 +1671,7 @@ def scenario_from_behaviour(beh, rng):
                     cnt += 1
                     last_internal = k
                 else:                       # the environment acts before the look-up of a table
-                    op, hp = _env_to_op(beh[k][0], rng)
+                    op, hp = _env_to_op(beh[k][0], rng, table_of)
                     env_at.setdefault(str(cnt), []).append(op)
                     expect.append((ENVMAP[names[k]], beh[k][1]))
                     has_partial = has_partial or hp
@@ -1670,7 +1703,7 @@ def scenario_from_behaviour(beh, rng):
         elif name == 'Crash':              # a crash outside a connect cannot happen (stage idle is excluded)
             expect.append(('crash', st))
         elif name in ENV_ACTIONS:
-            op, hp = _env_to_op(beh[j][0], rng)
+            op, hp = _env_to_op(beh[j][0], rng, table_of)
             ops.append(op)
             has_partial = has_partial or hp
             expect.append((ENVMAP[name], st))
@@ -1699,7 +1732,7 @@ def _state_matches(p, st, tables, what):
         for c in {x[1] for x in ka}:
             if [x[0] for x in ka if x[1] == c] != [x[0] for x in kb if x[1] == c]:
                 return False
-        if what not in ('close', 'connect') + ENV_OPS:   # the library resets its tables inside open_link / close_link
+        if what not in ('close', 'connect', 'oend') + ENV_OPS:   # the library resets its tables inside open_link / close_link
             for kd in ('log', 'param'):
                 if p['toc'][kd] != list(st['toc'][kd]):
                     return False
@@ -1708,14 +1741,14 @@ def _state_matches(p, st, tables, what):
 
 def compare_behaviour(expect, trace):
     """the recorded events (those that are design actions) against the behaviour, step by step"""
-    evs = [e for e in trace['ev'] if e['e'] not in ('connected', 'settle')]
+    evs = [e for e in trace['ev'] if e['e'] not in ('connected', 'settle', 'odl')]
     if len(evs) < len(expect):
         return False, 'real code produced %d action events, behaviour has %d' % (len(evs), len(expect))
     for i, (what, st) in enumerate(expect):
         e = evs[i]
         if e['e'] != what:
             return False, 'step %d: behaviour %s, real code %s' % (i, what, e['e'])
-        if not _state_matches(e.get('_p'), st, trace['tables'], what):
+        if not _state_matches(e.get('_p'), st, trace['tables'], 'oend' if e.get('who') == 2 else what):
             return False, 'step %d (%s): projected state differs' % (i, what)
     return True, ''
 
